@@ -21,6 +21,18 @@ Theorem C50_tar_entries_eq : forall commit prefix f,
 Proof. exact tar_nofilter_eq. Qed.
 Print Assumptions C50_tar_entries_eq.
 
+(* tar WITH literal path filters.  filters_ok: at least one filter, none empty or
+   ending in '/', each the path of an existing entry, and (fits) every filter
+   lying below a directory names something inside it while none lies below a
+   file.  Then go-git's eager selection (MatchesPathFilter on every walked
+   entry, parents included) equals git's lazy one (pathspec on files,
+   directories only when something below them is written). *)
+Theorem C50_tar_entries_eq_filtered : forall commit prefix fs f,
+  names_ok f = true -> dirs_ok f = true -> links_ok f = true -> prefix_ok prefix = true -> filters_ok fs f = true ->
+  tar_entries commit prefix fs f = git_archive_entries false commit prefix fs f.
+Proof. exact tar_filtered_eq. Qed.
+Print Assumptions C50_tar_entries_eq_filtered.
+
 (* ... and so is the whole request: <commit>/<tag>/<ref>, <tree>, <rev>: *)
 Theorem C50_archive_tar_eq : forall t commit prefix f,
   match t with TSub (_ :: _) => false | _ => true end = true ->
@@ -104,6 +116,13 @@ Example C50_guards_hold :
   dirs_ok w_tree = true /\ links_ok w_tree = true /\
   prefix_ok (bytes_of_string "proj-1.0/"%string) = true /\ prefix_ok [] = true /\
   prefix_ok (bytes_of_string "../x/"%string) = false.
+Proof. vm_compute. repeat split. Qed.
+
+Example C50_filter_guards_hold :
+  names_ok w_tree = true /\
+  filters_ok [[100; 47; 101]] w_tree = true /\ filters_ok [[100]; [97]] w_tree = true /\
+  filters_ok [[100; 47]] w_tree = false /\ filters_ok [[97]; [122]] w_tree = false /\
+  tar_entries None [] [[100; 47; 101]] w_tree = inr [ADir [100; 47] 509; AFile [100; 47; 101] 509 [121]].
 Proof. vm_compute. repeat split. Qed.
 
 Example C50_tar_example :
